@@ -24,13 +24,13 @@ TIERS = {"quick": {"runs": 40000, "budget": 75}, "thorough": {"runs": 600000, "b
 
 def make_case(i, rng, tier):
     target = common.target_for(i, rng)
-    inp = common.gen_input(rng, target)
+    inp = common.gen_input(rng, target, huge=True)
     o = model.decode(inp["root"], inp["data"], cc=inp["cc"], enc=inp["enc"])
     if not o.ok or o.items != inp["items"] or o.unspecified:
         raise HarnessError("generator/model self-check failed for %s: %s / %s" % (
             inp["label"], o.problem or o.unspecified, common.show_diff(o.items, inp["items"], "items")))
     main = common.spec("main", inp, strict=True)
-    tasks, sched = common.perturb(rng, [main])
+    tasks, sched = common.perturb(rng, [main], roots=True)
     return {"input": {"root": inp["root"], "cc": inp["cc"], "enc": inp["enc"], "label": inp["label"],
                       "arms": sorted(set("%s.%s" % a for a in inp["arms"]))[:40]},
             "tasks": tasks, "schedule": sched}
